@@ -100,6 +100,47 @@ impl<R> Drop for NotifyOnDrop<R> {
     }
 }
 
+/// Reads whatever is left of the wrapped body when dropped, so that the next request on the
+/// connection is parsed starting right after this one's body even if the application did not
+/// read the body to its end.
+struct DrainOnDrop<R: Read> {
+    inner: R,
+    finished: bool,
+}
+
+impl<R: Read> DrainOnDrop<R> {
+    fn new(inner: R) -> Self {
+        DrainOnDrop {
+            inner,
+            finished: false,
+        }
+    }
+}
+
+impl<R: Read> Read for DrainOnDrop<R> {
+    fn read(&mut self, buf: &mut [u8]) -> io::Result<usize> {
+        let res = self.inner.read(buf);
+        match res {
+            Ok(0) if !buf.is_empty() => self.finished = true,
+            Err(_) => self.finished = true,
+            _ => (),
+        }
+        res
+    }
+}
+
+impl<R: Read> Drop for DrainOnDrop<R> {
+    fn drop(&mut self) {
+        let mut buf = [0u8; 4096];
+        while !self.finished {
+            match self.inner.read(&mut buf) {
+                Ok(0) | Err(_) => self.finished = true,
+                Ok(_) => (),
+            }
+        }
+    }
+}
+
 /// Error that can happen when building a `Request` object.
 #[derive(Debug)]
 pub enum RequestCreationError {
@@ -218,7 +259,8 @@ where
     } else if transfer_encoding.is_some() {
         // if a transfer-encoding was specified, then "chunked" is ALWAYS applied
         // over the message (RFC2616 #3.6)
-        Box::new(FusedReader::new(Decoder::new(source_data))) as Box<dyn Read + Send + 'static>
+        Box::new(FusedReader::new(DrainOnDrop::new(Decoder::new(source_data))))
+            as Box<dyn Read + Send + 'static>
     } else {
         // if we have neither a Content-Length nor a Transfer-Encoding,
         // assuming that we have no data
